@@ -541,7 +541,10 @@ impl<'w> Model<'w> {
                     // prefilter" set (a hook of the verif-sim build: every offset is attempted, whatever
                     // predicate was derived - also from the twin pattern, seeded C09-Q); PikeVM (no such
                     // knob, and no prefilter on the pinned tree): the twin pattern
-                    let knob = spec.exec == ExecKind::Backtrack;
+                    // (the knob lives in the executor's own scan loop; a change that routes a
+                    // pattern around that loop would make it a no-op, so the pattern twin keeps
+                    // half of the backtracker's queries)
+                    let knob = spec.exec == ExecKind::Backtrack && (hsel.0 >> 1) % 2 == 0;
                     let twin = if knob { spec.clone() } else { RegexSpec { pattern: format!("(?:{}|(?!))", spec.pattern), flags: spec.flags.clone(), exec: spec.exec, input: spec.input } };
                     let (r2, st2) = model_mode(fuel, || {
                         let re = compile(&twin).ok()?;
